@@ -778,3 +778,253 @@ Example ex_dag_roundtrip :
   import_file KBCDD false true [1; 4; 5] 6 6 [4; -5; 6; -1]%Z (export_nodes (dag_of ex_dag) ++ trailer)
   = Ok (state_of [1; 4; 5] ex_dag 5, [eref 4 false; eref 5 true; eref 6 false; eref 1 true]).
 Proof. vm_compute. reflexivity. Qed.
+
+(** ** (d) names *)
+
+(** a name the format can carry inside a space-separated header line *)
+Definition clean (s : list byte) : Prop := Forall (fun b => is_space_or_control b = false) s.
+Definition no_control (s : list byte) : Prop := Forall (fun b => is_ascii_control b = false) s.
+
+Lemma existsb_false_Forall {A} (p : A -> bool) l : existsb p l = false <-> Forall (fun x => p x = false) l.
+Proof.
+  induction l as [|x l IH]; cbn; [split; auto|].
+  rewrite orb_false_iff, IH. split.
+  - intros [H1 H2]. constructor; assumption.
+  - intros H. inversion H; auto.
+Qed.
+
+Lemma map_id_Forall {A} (f : A -> A) l : Forall (fun x => f x = x) l -> map f l = l.
+Proof. induction 1; cbn; congruence. Qed.
+
+Theorem replace_space_and_control_clean : forall s, clean (fst (replace_space_and_control s)).
+Proof.
+  intros s. unfold clean. cbn [replace_space_and_control fst]. apply Forall_map.
+  apply Forall_forall. intros b _. destruct (is_space_or_control b) eqn:E; [reflexivity|exact E].
+Qed.
+
+Theorem replace_space_and_control_length : forall s,
+  length (fst (replace_space_and_control s)) = length s.
+Proof. intros. apply map_length. Qed.
+
+Theorem replace_space_and_control_flag : forall s,
+  snd (replace_space_and_control s) = false <-> clean s.
+Proof. intros s. apply existsb_false_Forall. Qed.
+
+Theorem replace_space_and_control_id : forall s, clean s -> replace_space_and_control s = (s, false).
+Proof.
+  intros s H. unfold replace_space_and_control. f_equal.
+  - apply map_id_Forall. eapply Forall_impl; [|exact H]. cbn. intros b Hb. rewrite Hb. reflexivity.
+  - apply existsb_false_Forall. exact H.
+Qed.
+
+Theorem write_replacing_control_spec : forall s,
+  no_control (fst (write_replacing_control s)) /\
+  length (fst (write_replacing_control s)) = length s /\
+  (snd (write_replacing_control s) = false <-> no_control s) /\
+  (no_control s -> fst (write_replacing_control s) = s).
+Proof.
+  intros s. cbn [write_replacing_control fst snd]. repeat split.
+  - unfold no_control. apply Forall_map. apply Forall_forall. intros b _.
+    destruct (is_ascii_control b) eqn:E; [reflexivity|exact E].
+  - apply map_length.
+  - apply existsb_false_Forall.
+  - apply existsb_false_Forall.
+  - intros H. apply map_id_Forall. eapply Forall_impl; [|exact H]. cbn. intros b Hb. rewrite Hb. reflexivity.
+Qed.
+
+(** decimal digits *)
+Lemma dec_go_digits : forall fuel n acc,
+  Forall (fun b => is_digit b = true) acc -> Forall (fun b => is_digit b = true) (dec_go fuel n acc).
+Proof.
+  induction fuel as [|f IH]; intros n acc H; cbn [dec_go]; [assumption|].
+  assert (Hd : is_digit (48 + n mod 10) = true).
+  { unfold is_digit. assert (n mod 10 < 10) by (apply N.mod_lt; lia).
+    apply andb_true_intro. split; [apply N.leb_le|apply N.leb_le]; lia. }
+  destruct (n <? 10); [constructor; assumption|]. apply IH. constructor; assumption.
+Qed.
+
+Lemma dec_go_nonempty : forall fuel n acc, acc <> [] \/ fuel <> O -> dec_go fuel n acc <> [].
+Proof.
+  induction fuel as [|f IH]; intros n acc H; cbn [dec_go].
+  - destruct H; [assumption|contradiction].
+  - destruct (n <? 10); [discriminate|]. apply IH. left. discriminate.
+Qed.
+
+Lemma digit_clean b : is_digit b = true -> is_space_or_control b = false.
+Proof.
+  unfold is_digit, is_space_or_control, is_ascii_control. intros H.
+  apply andb_prop in H. destruct H as [H1 H2]. apply N.leb_le in H1. apply N.leb_le in H2.
+  destruct (N.ltb_spec b 32); [lia|]. destruct (N.eqb_spec b 127); [lia|]. destruct (N.eqb_spec b 32); [lia|].
+  reflexivity.
+Qed.
+
+Lemma dec_clean n : clean (dec n) /\ dec n <> [].
+Proof.
+  split.
+  - unfold clean, dec. eapply Forall_impl; [apply digit_clean|]. apply dec_go_digits. constructor.
+  - apply dec_go_nonempty. right. discriminate.
+Qed.
+
+Lemma clean_app a b : clean a -> clean b -> clean (a ++ b).
+Proof. intros. apply Forall_app. split; assumption. Qed.
+
+Lemma underscores_clean n : clean (underscores n).
+Proof. unfold clean, underscores. apply Forall_forall. intros b Hb. apply repeat_spec in Hb. subst. reflexivity. Qed.
+
+(** root names: the written name is clean and non-empty; clean non-empty names are
+    written unchanged and are the only ones not reported in strict mode *)
+Theorem sanitize_root_name_spec : forall i name,
+  clean (fst (sanitize_root_name i name)) /\ fst (sanitize_root_name i name) <> [] /\
+  (snd (sanitize_root_name i name) = false <-> (clean name /\ name <> [])) /\
+  (clean name -> name <> [] -> fst (sanitize_root_name i name) = name).
+Proof.
+  intros i name. destruct name as [|b name].
+  - cbn [sanitize_root_name fst snd].
+    split; [apply clean_app; [repeat constructor|apply dec_clean]|].
+    split; [discriminate|].
+    split; [split; [discriminate|intros [_ Hne]; contradiction]|].
+    intros _ Hne. contradiction.
+  - cbn [sanitize_root_name].
+    split; [apply replace_space_and_control_clean|].
+    split.
+    { intros Hnil. apply (f_equal (@length _)) in Hnil.
+      rewrite replace_space_and_control_length in Hnil. discriminate. }
+    split.
+    { rewrite replace_space_and_control_flag. split; [intros Hc; split; [exact Hc|discriminate]|intros [Hc _]; exact Hc]. }
+    intros Hc _. rewrite replace_space_and_control_id by assumption. reflexivity.
+Qed.
+
+(** variable names *)
+Lemma var_out_name_ok lead prefix_all i orig :
+  let r := replace_space_and_control orig in
+  clean (var_out_name lead prefix_all i orig r) /\ var_out_name lead prefix_all i orig r <> [].
+Proof.
+  cbn zeta. unfold var_out_name.
+  destruct (replace_space_and_control orig) as [n owned] eqn:E.
+  assert (Hn : clean n) by (pose proof (replace_space_and_control_clean orig) as H; rewrite E in H; exact H).
+  assert (Hl : length n = length orig) by (pose proof (replace_space_and_control_length orig) as H; rewrite E in H; exact H).
+  assert (Hf : owned = false <-> clean orig) by (pose proof (replace_space_and_control_flag orig) as H; rewrite E in H; exact H).
+  destruct owned.
+  - destruct prefix_all.
+    + split.
+      * repeat apply clean_app; try apply underscores_clean; try apply dec_clean; try assumption; repeat constructor.
+      * intros H. apply app_eq_nil in H. destruct H as [_ H]. discriminate.
+    + split; [assumption|]. intros ->. destruct orig; [|discriminate].
+      cbn in E. inversion E.
+  - destruct orig as [|b orig].
+    + split.
+      * repeat apply clean_app; try apply underscores_clean; try apply dec_clean; repeat constructor.
+      * intros H. apply app_eq_nil in H. destruct H as [_ H]. discriminate.
+    + split; [apply Hf; reflexivity|discriminate].
+Qed.
+
+Lemma map_vars_ok lead prefix_all : forall names i,
+  Forall (fun n => clean n /\ n <> [])
+         (map_vars lead prefix_all i names (map replace_space_and_control names)) /\
+  length (map_vars lead prefix_all i names (map replace_space_and_control names)) = length names.
+Proof.
+  induction names as [|o os IH]; intros i; cbn [map map_vars]; [split; [constructor|reflexivity]|].
+  destruct (IH (i + 1)) as [H1 H2]. split.
+  - constructor; [apply var_out_name_ok|exact H1].
+  - cbn [length]. rewrite H2. reflexivity.
+Qed.
+
+(** every variable name written to the file is non-empty and free of spaces and control
+    characters, and there is one per variable *)
+Theorem export_var_names_clean : forall strict names out err,
+  export_var_names strict names = (Some out, err) ->
+  Forall (fun n => clean n /\ n <> []) out /\ length out = length names.
+Proof.
+  intros strict names out err H. unfold export_var_names in H.
+  destruct (Nat.eqb _ _ || _); [|discriminate]. inversion H; subst. apply map_vars_ok.
+Qed.
+
+Lemma map_vars_id lead : forall names i,
+  Forall (fun n => clean n /\ n <> []) names ->
+  map_vars lead false i names (map replace_space_and_control names) = names.
+Proof.
+  induction names as [|o os IH]; intros i H; [reflexivity|].
+  inversion H as [|? ? [Hc Hne] Hr]; subst. cbn [map map_vars].
+  rewrite IH by assumption. f_equal.
+  rewrite replace_space_and_control_id by assumption. cbn [var_out_name].
+  destruct o; [contradiction|reflexivity].
+Qed.
+
+(** names that the format can carry are written unchanged, without an error, in both modes *)
+Theorem export_var_names_id : forall strict names,
+  names <> [] -> Forall (fun n => clean n /\ n <> []) names ->
+  export_var_names strict names = (Some names, false).
+Proof.
+  intros strict names Hne H. unfold export_var_names.
+  assert (Hfil : filter (fun n => negb (bytes_eqb n [])) names = names).
+  { clear Hne. induction H as [|n l [_ Hn] _ IH]; [reflexivity|]. cbn [filter].
+    destruct n; [contradiction|]. cbn. rewrite IH. reflexivity. }
+  rewrite Hfil, Nat.eqb_refl. cbn [orb].
+  assert (Hrep : existsb snd (map replace_space_and_control names) = false).
+  { apply existsb_false_Forall. apply Forall_map. eapply Forall_impl; [|exact H].
+    cbn. intros n [Hc _]. apply replace_space_and_control_flag. exact Hc. }
+  rewrite Hrep. cbn [andb]. rewrite andb_false_r.
+  rewrite map_vars_id by assumption. reflexivity.
+Qed.
+
+Lemma filter_len_le {A} (p : A -> bool) l : (length (filter p l) <= length l)%nat.
+Proof. induction l as [|x l IH]; cbn; [lia|]. destruct (p x); cbn; lia. Qed.
+
+(** strict mode reports an error exactly when the names are written and one of them
+    contains a space or a control character *)
+Theorem export_var_names_strict : forall names,
+  snd (export_var_names true names) = true <->
+  (Forall (fun n => n <> []) names /\ exists n, In n names /\ ~ clean n).
+Proof.
+  intros names. unfold export_var_names. cbn [negb andb orb]. rewrite orb_false_r.
+  set (named := length (filter (fun n => negb (bytes_eqb n [])) names)).
+  assert (Hall : Nat.eqb named (length names) = true <-> Forall (fun n => n <> []) names).
+  { subst named. rewrite Nat.eqb_eq. clear. induction names as [|n l IH]; [split; auto|].
+    cbn [filter length]. destruct n as [|b n]; cbn [bytes_eqb negb].
+    - split.
+      + intros H. pose proof (filter_len_le (fun n => negb (bytes_eqb n [])) l). lia.
+      + intros H. inversion H; contradiction.
+    - cbn [length]. split.
+      + intros H. constructor; [discriminate|]. apply IH. lia.
+      + intros H. inversion H; subst. f_equal. apply IH. assumption. }
+  assert (Hex : existsb snd (map replace_space_and_control names) = true <-> exists n, In n names /\ ~ clean n).
+  { rewrite existsb_exists. split.
+    - intros (r & Hin & Hs). apply in_map_iff in Hin. destruct Hin as (n & <- & Hn).
+      exists n. split; [assumption|]. intros Hc. apply replace_space_and_control_flag in Hc. congruence.
+    - intros (n & Hn & Hc). exists (replace_space_and_control n). split; [apply in_map; assumption|].
+      destruct (snd (replace_space_and_control n)) eqn:E; [reflexivity|].
+      apply replace_space_and_control_flag in E. contradiction. }
+  destruct (Nat.eqb named (length names)) eqn:E; cbn [snd].
+  - rewrite Hex. split; [intros H; split; [apply Hall; reflexivity|exact H]|intros [_ H]; exact H].
+  - split; [discriminate|]. intros [H _]. apply Hall in H. discriminate.
+Qed.
+
+(** ** semantics: the imported handles denote the functions of the exported nodes *)
+
+(** natural semantics of the exporter's node list: node ID 1 is ⊤, an inner node
+    branches on the variable at its level, a complemented reference negates *)
+Fixpoint sem (slm : list N) (l : list inode) (fuel : nat) (env : N -> bool) (id : N) (tag : bool) : tval :=
+  let flip v := if tag then tneg v else v in
+  if id =? 1 then flip (TNum 1)
+  else match fuel with
+       | O => TNaN
+       | S f =>
+         match nth_error l (N.to_nat (id - 2)) with
+         | None => TNaN
+         | Some nd => flip (if env (lvl slm (iv nd)) then sem slm l f env (it nd) false
+                            else sem slm l f env (ie nd) (ic nd))
+         end
+       end.
+
+Theorem eval_state_sem : forall slm l fuel env id tag,
+  eval_edge (st_store (state_of slm l (length l))) fuel env (eref id tag) = sem slm l fuel env id tag.
+Proof.
+  intros slm l. unfold state_of. cbn [st_store]. rewrite firstn_all.
+  induction fuel as [|f IH]; intros env id tag.
+  - unfold eref. cbn [sem eval_edge]. destruct (id =? 1); reflexivity.
+  - unfold eref. cbn [sem]. destruct (N.eqb_spec id 1) as [->|Hne]; [reflexivity|].
+    cbn [eval_edge ce_ref ce_tag]. rewrite nth_error_map.
+    destruct (nth_error l (N.to_nat (id - 2))) as [nd|]; [|reflexivity].
+    cbn [option_map cn_of cn_level cn_t cn_e].
+    destruct (env (lvl slm (iv nd))); rewrite IH; reflexivity.
+Qed.
